@@ -183,6 +183,9 @@ private:
         bool self_seed{false};
         bool self_leecher{false};
     };
+    // Handshakes arrive on the transport accept thread, on session threads (bootstrap re-handshake)
+    // and on the control/tick threads; handshake_mutex_ is a leaf lock around the table only.
+    mutable std::mutex handshake_mutex_;
     std::unordered_map<std::string, HandshakeRecord> handshake_state_;
     std::vector<std::string> cleanup_notifications_;
     std::chrono::steady_clock::time_point last_cleanup_{};
